@@ -96,6 +96,12 @@ def compare(ctx, rule, key, node, ref_text, leafmap, callmap=None, loc=None, wha
         extra = ""
         if any(cs for _, cs in opaque):
             extra = "; helper %s adds a case distinction the reference formula does not have" % [n for n, cs in opaque if cs]
+        # the same formula over quantities this rule cannot name (a struct field or tuple component introduced by a refactoring): if renaming the unknown
+        # leaves onto the reference symbols the code does not use makes the two equal, the shape is right and only the identity of the quantities is open -
+        # cannot decide.  When no renaming does, the shape itself differs: a finding whatever the names are.
+        if not any(cs for _, cs in opaque) and _iso_under_renaming(nz, code, ref):
+            raise AnalysisError("%s has the shape of the reference (%s) over quantities this rule cannot identify (%s): cannot decide"
+                                % (what or key, ref_text, sorted(set(nz.unknown))[:5]))
         ctx.violation(rule, key, "%s uses quantities the reference formula does not have: %s%s (code: %s; reference: %s)"
                       % (what or key, sorted(set(nz.unknown))[:5], extra, str(code)[:200], ref_text), loc)
         return False
@@ -103,6 +109,34 @@ def compare(ctx, rule, key, node, ref_text, leafmap, callmap=None, loc=None, wha
         ctx.ok(rule, key, "%s = %s" % (what or key, ref_text), loc)
         return True
     ctx.violation(rule, key, "%s normalises to %s, reference %s = %s" % (what or key, str(code)[:300], ref_text, str(ref)[:200]), loc)
+    return False
+
+
+def _iso_under_renaming(nz, code, ref):
+    """is there a bijection from the unknown leaves of `code` onto reference symbols `code` does not use that makes code == ref?"""
+    import itertools
+    from .exprs import Poly, Rat
+    unk = sorted({a for a in (code.n.atoms() | code.d.atoms()) if a.startswith("?")})
+    ref_atoms = ref.n.atoms() | ref.d.atoms()
+    code_known = (code.n.atoms() | code.d.atoms()) - set(unk)
+    free = sorted(a for a in ref_atoms - code_known if "#" not in a)
+    if not unk or len(unk) != len(free) or len(unk) > 6:
+        return False
+
+    def rename(poly, m):
+        t = {}
+        for mono, c in poly.t.items():
+            d = {}
+            for a, p_ in mono:
+                a2 = m.get(a, a)
+                d[a2] = d.get(a2, 0) + p_
+            k = tuple(sorted(d.items()))
+            t[k] = t.get(k, 0) + c
+        return Poly(t)
+    for perm in itertools.permutations(free):
+        m = dict(zip(unk, perm))
+        if Rat(rename(code.n, m), rename(code.d, m)).equals(ref):
+            return True
     return False
 
 
